@@ -20,7 +20,7 @@ Print Assumptions C04_parse_render.
 (* the value of an alternative in the free layout is the one denoted by its clauses, whatever their order *)
 Theorem C04_alternative_free_layout : forall name q cl,
   name <> [] -> forallb namec name = true -> eqc (peek name) 36 = false ->
-  (match q with None => True | Some a => forallb mac (arch_string a) = true /\ parse_arch (arch_string a) = a end) ->
+  (match q with None => True | Some a => forallb mac (arch_string a) = true /\ parse_arch (arch_string a) = a /\ arch_ok (arch_string a) = true end) ->
   clauses_ok (base name q) cl -> alt_ok2 (name ++ qual_text q ++ clauses_text cl) (result name q cl).
 Proof. exact alt_free2. Qed.
 
@@ -28,31 +28,31 @@ Proof. exact alt_free2. Qed.
    second architecture clause *)
 Theorem C04_reject_second_version : forall name q cl w y v0,
   name <> [] -> forallb namec name = true -> eqc (peek name) 36 = false ->
-  (match q with None => True | Some a => forallb mac (arch_string a) = true /\ parse_arch (arch_string a) = a end) ->
+  (match q with None => True | Some a => forallb mac (arch_string a) = true /\ parse_arch (arch_string a) = a /\ arch_ok (arch_string a) = true end) ->
   clauses_ok (base name q) cl -> cl <> [] -> p_ver (result name q cl) = Some v0 -> all_ws w ->
   parse (name ++ qual_text q ++ clauses_text cl ++ w ++ ch 40 :: y) = Err.
 Proof. exact D16r.C04_reject_second_version. Qed.
 Theorem C04_reject_second_archs : forall name q cl w y,
   name <> [] -> forallb namec name = true -> eqc (peek name) 36 = false ->
-  (match q with None => True | Some a => forallb mac (arch_string a) = true /\ parse_arch (arch_string a) = a end) ->
+  (match q with None => True | Some a => forallb mac (arch_string a) = true /\ parse_arch (arch_string a) = a /\ arch_ok (arch_string a) = true end) ->
   clauses_ok (base name q) cl -> cl <> [] -> a_list (archs_of (result name q cl)) <> [] -> all_ws w ->
   parse (name ++ qual_text q ++ clauses_text cl ++ w ++ ch 91 :: y) = Err.
 Proof. exact D16r.C04_reject_second_archs. Qed.
 Print Assumptions C04_reject_second_version.
 (* two names without a separator, an unknown operator, a version clause that is never closed *)
 Theorem C04_reject_two_names : forall name q cl, name <> [] -> forallb namec name = true -> eqc (peek name) 36 = false ->
-  (match q with None => True | Some a => forallb mac (arch_string a) = true /\ parse_arch (arch_string a) = a end) ->
+  (match q with None => True | Some a => forallb mac (arch_string a) = true /\ parse_arch (arch_string a) = a /\ arch_ok (arch_string a) = true end) ->
   clauses_ok (base name q) cl -> cl <> [] -> forall w c x, all_ws w -> is_ws c = false ->
   eqc c 44 || eqc c 124 || eqc c 0 = false -> eqc c 40 = false -> eqc c 91 = false -> eqc c 60 = false ->
   parse (name ++ qual_text q ++ clauses_text cl ++ w ++ c :: x) = Err.
 Proof. exact D17r.C04_reject_two_names. Qed.
 Theorem C04_reject_unknown_operator : forall name q cl, name <> [] -> forallb namec name = true -> eqc (peek name) 36 = false ->
-  (match q with None => True | Some a => forallb mac (arch_string a) = true /\ parse_arch (arch_string a) = a end) ->
+  (match q with None => True | Some a => forallb mac (arch_string a) = true /\ parse_arch (arch_string a) = a /\ arch_ok (arch_string a) = true end) ->
   clauses_ok (base name q) cl -> cl <> [] -> forall w rest, all_ws w -> p_ver (result name q cl) = None ->
   parse_operator rest = Err -> parse (name ++ qual_text q ++ clauses_text cl ++ w ++ ch 40 :: rest) = Err.
 Proof. exact D17r.C04_reject_unknown_operator. Qed.
 Theorem C04_reject_unterminated_version : forall name q cl, name <> [] -> forallb namec name = true -> eqc (peek name) 36 = false ->
-  (match q with None => True | Some a => forallb mac (arch_string a) = true /\ parse_arch (arch_string a) = a end) ->
+  (match q with None => True | Some a => forallb mac (arch_string a) = true /\ parse_arch (arch_string a) = a /\ arch_ok (arch_string a) = true end) ->
   clauses_ok (base name q) cl -> cl <> [] -> forall w op rest, all_ws w -> p_ver (result name q cl) = None ->
   In op ops -> opnext rest = true -> forallb numc rest = true ->
   parse (name ++ qual_text q ++ clauses_text cl ++ w ++ ch 40 :: op ++ rest) = Err.
@@ -60,7 +60,7 @@ Proof. exact D17r.C04_reject_unterminated_version. Qed.
 Print Assumptions C04_reject_unterminated_version.
 (* mixed negation inside one architecture list; a bracket that is never closed; a substvar that is never closed *)
 Theorem C04_reject_mixed_negation : forall name q cl, name <> [] -> forallb namec name = true -> eqc (peek name) 36 = false ->
-  (match q with None => True | Some a => forallb mac (arch_string a) = true /\ parse_arch (arch_string a) = a end) ->
+  (match q with None => True | Some a => forallb mac (arch_string a) = true /\ parse_arch (arch_string a) = a /\ arch_ok (arch_string a) = true end) ->
   clauses_ok (base name q) cl -> cl <> [] -> p_archs (result name q cl) = Some {| a_not := false; a_list := [] |} ->
   forall nt items w w0 T, all_ws w -> all_ws w0 -> items <> [] -> Forall (wf_archent nt) (map fst items) -> seps1 items ->
   is_ws (peek T) = false -> eqc (peek T) 0 = false -> eqc (peek T) 93 = false -> T <> [] ->
@@ -68,7 +68,7 @@ Theorem C04_reject_mixed_negation : forall name q cl, name <> [] -> forallb name
   parse (name ++ qual_text q ++ clauses_text cl ++ w ++ ch 91 :: w0 ++ items_text nt items ++ T) = Err.
 Proof. exact D18r.C04_reject_mixed_negation. Qed.
 Theorem C04_reject_unterminated_bracket : forall name q cl, name <> [] -> forallb namec name = true -> eqc (peek name) 36 = false ->
-  (match q with None => True | Some a => forallb mac (arch_string a) = true /\ parse_arch (arch_string a) = a end) ->
+  (match q with None => True | Some a => forallb mac (arch_string a) = true /\ parse_arch (arch_string a) = a /\ arch_ok (arch_string a) = true end) ->
   clauses_ok (base name q) cl -> cl <> [] -> p_archs (result name q cl) = Some {| a_not := false; a_list := [] |} ->
   forall nt items w w0 tail, all_ws w -> all_ws w0 -> Forall (wf_archent nt) (map fst items) -> seps1 items ->
   forallb archc tail = true ->
@@ -126,7 +126,7 @@ Theorem C04_reject_at_any_position : forall B, bad_alt B ->
 Proof. exact C04_reject_anywhere. Qed.
 Theorem C04_prefix_alternatives : 
   (forall name q cl, name <> [] -> forallb namec name = true -> eqc (peek name) 36 = false ->
-     (match q with None => True | Some a => forallb mac (arch_string a) = true /\ parse_arch (arch_string a) = a end) ->
+     (match q with None => True | Some a => forallb mac (arch_string a) = true /\ parse_arch (arch_string a) = a /\ arch_ok (arch_string a) = true end) ->
      clauses_ok (base name q) cl -> alt_okR (name ++ qual_text q ++ clauses_text cl) (result name q cl)) /\
   (forall p, wf_subst p -> alt_okR (possi_string p) p).
 Proof. exact C04_prefix_alternatives_ok. Qed.
@@ -135,7 +135,7 @@ Section Classes.
   Hypothesis Hne : name <> [].
   Hypothesis Hc : forallb namec name = true.
   Hypothesis Hd : eqc (peek name) 36 = false.
-  Hypothesis Ha : match q with None => True | Some a => forallb mac (arch_string a) = true /\ parse_arch (arch_string a) = a end.
+  Hypothesis Ha : match q with None => True | Some a => forallb mac (arch_string a) = true /\ parse_arch (arch_string a) = a /\ arch_ok (arch_string a) = true end.
   Hypothesis W : clauses_ok (base name q) cl.
   Notation sep w := (cl <> [] \/ w <> []).
   Theorem C04_class_second_version : forall w y v0, p_ver (result name q cl) = Some v0 -> all_ws w -> sep w ->
